@@ -1385,6 +1385,53 @@ theorem C17_preview_inherited_witness :
     memoRun false (fun c => if c = 1 then some 0 else none) 2 (fun c => c + 10) (fun _ => none) [0, 1] = [10, 11] := by
   decide
 
+/-! ### default factories are applied per instance -/
+
+/-- **instances are independent**: whatever happened before — other instances of the same node class set up, their
+factory-made values mutated — a newly set up instance holds, for every factory field, a NEW object (its identity
+was never handed out before) with exactly the factory's product as content; and appending to an older object
+afterwards does not change what the new instance holds. -/
+theorem C17_factory_per_instance (h : Heap) (facs : List (List Val)) :
+    (∀ i ∈ (newInst h facs).1, h.next ≤ i) ∧
+    (newInst h facs).1.length = facs.length ∧
+    (∀ k (hk : k < facs.length), (newInst h facs).2.cell (h.next + k) = some facs[k] ∧
+      (newInst h facs).1[k]? = some (h.next + k)) ∧
+    (∀ old v, old < h.next → ∀ k, k < facs.length →
+      ((newInst h facs).2.mutate old v).cell (h.next + k) = (newInst h facs).2.cell (h.next + k)) := by
+  obtain ⟨h1, _, h3, _⟩ := newInst_spec h facs
+  refine ⟨?_, ?_, ?_, ?_⟩
+  · intro i hi
+    rw [h1] at hi
+    simp only [List.mem_range'_1] at hi
+    exact hi.1
+  · rw [h1]; simp
+  · intro k hk
+    refine ⟨h3 k hk, ?_⟩
+    rw [h1]
+    simp [hk]
+  · intro old v ho k _
+    have : h.next + k ≠ old := by omega
+    simp [Heap.mutate, this]
+
+/-- two instances of a node class with one factory field `list = [1, 2]`; the first instance's list gets `9`
+appended (through the node's input, or through the dataclass it built).  Factories applied per instance: the
+second instance starts from `[1, 2]`.  Products cached on the class: the second instance is handed the first
+one's object and starts from `[1, 2, 9]`. -/
+theorem C17_factory_cached_witness :
+    let h0 : Heap := ⟨0, fun _ => none⟩
+    let facs : List (List Val) := [[.atom "i1", .atom "i2"]]
+    -- per instance
+    (let a := newInst h0 facs
+     let hm := a.2.mutate (a.1.headD 0) (.atom "i9")
+     let b := newInst hm facs
+     (b.2.cell (b.1.headD 0)).map (·.length) = some 2 ∧ b.1.headD 0 ≠ a.1.headD 0) ∧
+    -- cached on the class
+    (let a := newInstCached none h0 facs
+     let hm := a.2.1.mutate (a.1.headD 0) (.atom "i9")
+     let b := newInstCached a.2.2 hm facs
+     (b.2.1.cell (b.1.headD 0)).map (·.length) = some 3 ∧ b.1.headD 0 = a.1.headD 0) := by
+  decide
+
 end PwVerif.C17
 
 #print axioms PwVerif.C17.C17_bind
@@ -1438,3 +1485,5 @@ end PwVerif.C17
 #print axioms PwVerif.C17.C17_dc_inputs_witness
 #print axioms PwVerif.C17.C17_preview_per_class
 #print axioms PwVerif.C17.C17_preview_inherited_witness
+#print axioms PwVerif.C17.C17_factory_per_instance
+#print axioms PwVerif.C17.C17_factory_cached_witness
